@@ -260,6 +260,7 @@ struct X
         if (!ctx_first_seen) ctx_first_seen = addr;
         S.ev += (ctx_expected ? (addr == ctx_expected ? "=" : "!") : (addr == ctx_first_seen ? "~" : "!"));
         S.ev += std::is_const_v<CT> ? "c" : "m";
+        S.ev += std::is_lvalue_reference_v<C> ? "L" : "R";     // value category the context arrives with
         S.ev += "#"; put(ctx.counter);
         if constexpr (!std::is_const_v<CT>) ++ctx.counter;
         S.ev += "](";
@@ -283,6 +284,7 @@ struct XN
         if (!ctx_first_seen) ctx_first_seen = addr;
         S.ev += (ctx_expected ? (addr == ctx_expected ? "=" : "!") : (addr == ctx_first_seen ? "~" : "!"));
         S.ev += std::is_const_v<CT> ? "c" : "m";
+        S.ev += std::is_lvalue_reference_v<C> ? "L" : "R";     // value category the context arrives with
         S.ev += "#"; put(ctx.counter);
         if constexpr (!std::is_const_v<CT>) ++ctx.counter;
         S.ev += "](";
